@@ -14,7 +14,7 @@ structure CombCorr (D : NetD) (as topo : List (LHS × Expr)) (net : String → O
   /-- every assign is justified by every in-range valuation at which the combinational leaves sit at their fixpoint -/
   just : ∀ V, CombFix D V → (∀ k, V k < 2 ^ D.wd k) → ∀ a, a ∈ as → Just net D.wd V a
   /-- a name no assign drives denotes a net no combinational leaf drives -/
-  undriven : ∀ n k, net n = some k → n ∉ as.map tgt → ∀ c, c ∈ D.combs → c.out ≠ k
+  undriven : ∀ n k, net n = some k → n ∉ as.map tgt → ∀ c, c ∈ D.combs → ∀ o, o ∈ c.outs.map (·.1) → o ≠ k
 
 /-- what the store must declare: whole-net targets, the widths of the names that denote nets -/
 structure InfoOK (D : NetD) (as : List (LHS × Expr)) (net : String → Option Nat) (r : Rd) : Prop where
